@@ -32,6 +32,60 @@ theorem compile_define_inv {fuel : Nat} {st st' : CState} {c : Ctx} {base : Nat}
     · cases h
       exact ⟨code1, rfl, rfl⟩
 
+/-- `(define (x . formals) body …)`: the parts `compile_define` computes from the definition form -/
+theorem lambdaParts_cur_inv {fuel : Nat} {c : Ctx} {x : Text} {formals lbody : Datum} {p : LambdaParts}
+    (h : lambdaParts fuel c (curForm x formals lbody) true = .ok p) :
+    p.body = lbody ∧ p.ctx.args = p.formals ∧
+      p.prologue = (if p.isVararg then [.op .varArg] else []) ++ [.op .enter] := by
+  unfold curForm lambdaParts at h
+  simp only [Datum.isNil, Bool.false_eq_true, if_false, if_true] at h
+  split at h
+  · cases h
+  · rename_i fa hfa
+    split at h
+    · cases h
+    · split at h
+      · cases h
+      · split at h
+        · cases h
+        · split at h
+          · cases h
+          · cases h
+            exact ⟨rfl, rfl, rfl⟩
+
+/-- `(define (x . formals) body …)`: the code object, `MOV-IMMEDIATE <lambda> %acc; CLOSURE`, the store -/
+theorem compile_defcur_inv {fuel : Nat} {st st' : CState} {c : Ctx} {base : Nat} {tail : Bool} {code : List BC}
+    {x : Text} {formals lbody : Datum}
+    (h : compileExpr (fuel + 1) st c base tail (curForm x formals lbody) = .ok (st', code)) :
+    ∃ p st1 bcode, lambdaParts fuel c (curForm x formals lbody) true = .ok p ∧
+      compileBody fuel st p.ctx p.prologue.length p.body = .ok (st1, bcode) ∧
+      st'.lambdas = st1.lambdas ++ [lamOf p bcode] ∧
+      code = [.op .movImm, .lambda st1.lambdas.length, .acc, .op .closureAcc] ++
+        [.op .mov, .acc, emitLoc c x, .op .movImm, .void, .acc] := by
+  unfold curForm at h
+  unfold compileExpr at h
+  simp only [define_tests, if_true] at h
+  cases lbody with
+  | pair value rest3 =>
+    simp only [Datum.isNil, Bool.false_eq_true, if_false] at h
+    cases h1 : lambdaParts fuel c
+        (.pair (.sym k_define) (.pair (.pair (.sym x) formals) (.pair value rest3))) true with
+    | error e => rw [h1] at h; cases h
+    | ok p =>
+      rw [h1] at h
+      simp only at h
+      cases h2 : compileBody fuel st p.ctx p.prologue.length p.body with
+      | error e => rw [h2] at h; cases h
+      | ok r =>
+        obtain ⟨st1, bcode⟩ := r
+        rw [h2] at h
+        simp only [finishLambda, storeCode] at h
+        split at h
+        · cases h
+        · cases h
+          exact ⟨p, st1, bcode, h1, h2, rfl, rfl⟩
+  | _ => simp [Datum.isNil] at h
+
 /-! ## the compiler's table only grows -/
 
 def MonoOK3 (G : Text → Prop) (f : Nat) : Prop :=
@@ -42,12 +96,44 @@ def MonoOK3 (G : Text → Prop) (f : Nat) : Prop :=
   (∀ c ns us ints e st base st' code, F3B G f c ns us ints e → compileBody f st c base e = .ok (st', code) →
     st.lambdas <+: st'.lambdas)
 
+/-- inside a block: the head is a definition whose initialiser is compiled with less fuel -/
+theorem monoK {G : Text → Prop} : ∀ {g : Nat} {c : Ctx} {ns us : Text → Prop} {Bs todo ints : List Text} {e : Datum},
+    F3K G g c ns us Bs todo ints e → ∀ (F : Nat), (∀ g', g' ≤ F → MonoOK3 G g') →
+    (g ≤ F ∨ (todo ≠ [] ∧ g ≤ F + 1)) → ∀ st base st' code, compileBody g st c base e = .ok (st', code) →
+    st.lambdas <+: st'.lambdas
+  | _, _, _, _, _, _, _, _, @F3K.defl _ f0 _ _ _ _ _ x formals lbody y rest ints _ _ _ hf hk, F, ih, hg, st, base, st', code,
+      hc => by
+    obtain ⟨st1, code1, code2, c1, c2, _⟩ := compileBody_pair_inv hc
+    obtain ⟨code0, c0', _⟩ := compile_define_inv c1
+    have hle : f0 + 1 ≤ F := by rcases hg with h | ⟨_, h⟩ <;> omega
+    exact ((ih f0 (by omega)).1 _ _ _ _ _ _ _ _ _ hf c0').trans (monoK hk F ih (.inl hle) _ _ _ _ c2)
+  | _, _, _, _, _, _, _, _, @F3K.defc _ f0 _ _ _ _ _ x formals lbody y rest ints p ps rst lints caps _ _ _ hp _ _ _ _ _ _ hb
+      hk, F, ih, hg, st, base, st', code, hc => by
+    obtain ⟨st1, code1, code2, c1, c2, _⟩ := compileBody_pair_inv hc
+    obtain ⟨p', st0, bcode, hp', cb, hl, _⟩ := compile_defcur_inv c1
+    rw [hp] at hp'; cases hp'
+    rw [(lambdaParts_cur_inv hp).1] at cb
+    have hle : f0 + 1 ≤ F := by rcases hg with h | ⟨_, h⟩ <;> omega
+    have h1 : st.lambdas <+: st1.lambdas := by
+      rw [hl]
+      exact ((ih f0 (by omega)).2.2 _ _ _ _ _ _ _ _ _ hb cb).trans (List.prefix_append _ _)
+    exact h1.trans (monoK hk F ih (.inl hle) _ _ _ _ c2)
+  | _, _, _, _, _, _, _, _, .done ints e hb, F, ih, hg, st, base, st', code, hc => by
+    rcases hg with h | ⟨h, _⟩
+    · exact (ih _ h).2.2 _ _ _ _ _ _ _ _ _ hb hc
+    · exact absurd rfl h
+
 theorem monoOK3_le (G : Text → Prop) : ∀ f g, g ≤ f → MonoOK3 G g
   | 0, g, hg => by
     have : g = 0 := by omega
     subst this
     exact ⟨(by intro c ns us t e st base st' code hf; cases hf), (by intro c ns us e st base st' code k hf; cases hf),
-          (by intro c ns us ints e st base st' code hf; cases hf)⟩
+          (by
+            intro c ns us ints e st base st' code hf
+            cases hf with
+            | block Bs ints e hne hK =>
+              cases hK with
+              | done ints e hb => exact absurd rfl hne)⟩
   | f + 1, g, hg => by
     have ihle := monoOK3_le G f
     by_cases hgf : g ≤ f
@@ -108,6 +194,7 @@ theorem monoOK3_le (G : Text → Prop) : ∀ f g, g ≤ f → MonoOK3 G g
         obtain ⟨code0, c0', _⟩ := compile_define_inv c1
         have ih0 := ihle f0 (Nat.le_succ _)
         exact (ih0.1 _ _ _ _ _ _ _ _ _ h1 c0').trans (ih.2.2 _ _ _ _ _ _ _ _ _ h2 c2)
+      | block Bs ints e hne hK => exact monoK hK f ihle (.inr ⟨hne, Nat.le_refl _⟩) _ _ _ _ hc
 
 theorem monoOK3 (G : Text → Prop) (f : Nat) : MonoOK3 G f := monoOK3_le G f f (Nat.le_refl _)
 
